@@ -188,10 +188,17 @@ bool same_points(std::vector<std::string>& a, std::vector<std::string>& b, doubl
   for (auto& kv : pa) {
     auto it = pb.find(kv.first);
     if (it == pb.end()) { if (allow_removal) continue; why = "[point [" + kv.first + "] " + kv.second + "] is missing"; return false; }
-    if (kv.second == it->second || gnet::tokens_equal(kv.second, it->second, rtol)) continue;
+    // " given_xy A given_z B" (clause 2 only): were coordinates GIVEN in the document.  The export may add computed
+    // ones (0 -> 1); it may not drop given ones of a point that stays in the file (1 -> 0): they are input data that
+    // other observations may use - a zenith angle needs the position of a point whose xy is not adjusted.
+    std::string sa = kv.second, sb = it->second;
+    auto take = [](std::string& r, int& gxy, int& gz) { size_t p = r.find(" given_xy "); gxy = gz = -1; if (p == std::string::npos) return; std::istringstream in(r.substr(p)); std::string k1, k2; in >> k1 >> gxy >> k2 >> gz; r = r.substr(0, p); };
+    int axy, az, bxy, bz; take(sa, axy, az); take(sb, bxy, bz);
+    if ((axy == 1 && bxy == 0) || (az == 1 && bz == 0)) { why = "[point [" + kv.first + "] " + kv.second + "] vs [point [" + kv.first + "] " + it->second + "]: given coordinates are not in the export"; return false; }
+    if (sa == sb || gnet::tokens_equal(sa, sb, rtol)) continue;
     if (allow_removal) {
       // "xy S z T ..." : a group may have become "unused"
-      std::istringstream ia(kv.second), ib(it->second); std::string k1, sxa, k2, sza, k3, sxb, k4, szb;
+      std::istringstream ia(sa), ib(sb); std::string k1, sxa, k2, sza, k3, sxb, k4, szb;
       ia >> k1 >> sxa >> k2 >> sza; ib >> k3 >> sxb >> k4 >> szb;
       bool okxy = sxa == sxb || sxb == "unused", okz = sza == szb || szb == "unused";
       std::string ra, rb; std::getline(ia, ra); std::getline(ib, rb);
@@ -492,7 +499,7 @@ Verdict RestartEngine::execute(const Plan& plan, EventLog& log, Stats& st)
       std::vector<std::string> a = survey_view(Sorig, false), b = survey_view(Sk, false);
       // coordinates are exempt in clause 2 (they are supposed to be updated): strip them
       // ("has_xy/has_z" say whether approximate coordinates were GIVEN; the export always carries the computed ones)
-      auto strip_xyz = [](std::vector<std::string>& v) { for (auto& l : v) if (l.compare(0, 6, "point ") == 0) { size_t p = l.find(" has_xy "); if (p != std::string::npos) l = l.substr(0, p); } };
+      auto strip_xyz = [](std::vector<std::string>& v) { for (auto& l : v) if (l.compare(0, 6, "point ") == 0) { size_t p = l.find(" has_xy "); if (p != std::string::npos) { std::istringstream in(l.substr(p)); std::string k1, k2; int a = 0, b = 0; in >> k1 >> a >> k2 >> b; l = l.substr(0, p) + fmt(" given_xy %d given_z %d", a, b); } } };
       strip_xyz(a); strip_xyz(b);
       if (!same_points(a, b, 1e-7, true, why)) return Verdict::fail("C13:export-changes-survey:point", 0, "the export of round 0 does not describe the survey of the input: " + why);
       bool reduced = false; for (auto& l : Sorig.lines) if (l.compare(0, 11, "apriori_m0 ") == 0 && (l.find(" latitude -1 ") == std::string::npos || l.find(" ellipsoid - ") == std::string::npos)) reduced = true;
